@@ -1289,3 +1289,10 @@ Example ex_documented :
   spec_accepts w_proj3 (Some 5) (ref_of "x") RPlain = false /\
   render w_proj3 (Some 6) (ref_of "cb") = RLink 4.
 Proof. repeat split; reflexivity. Qed.
+
+(* the context of a conversion is never inherited from an earlier conversion on the same instance *)
+Theorem context_not_inherited p calls : forall st,
+  md_run p st calls = map (fun c => render p (fst c) (snd c)) calls.
+Proof.
+  induction calls as [|[ctx r] calls IH]; intros st; simpl; [reflexivity|]. now rewrite IH.
+Qed.
